@@ -28,7 +28,9 @@ REL = 1e-12
 LENGTH_UNITS = {'nanometer': 1e-9, 'nm': 1e-9, 'angstrom': 1e-10, 'picometer': 1e-12, 'micrometer': 1e-6, 'meter': 1.0}
 # unit -> (joule per unit, molar?)
 ENERGY_UNITS = {'kilojoule/mole': (1e3, True), 'kJ/mol': (1e3, True), 'joule/mole': (1.0, True), 'kcal/mol': (4184.0, True),
-                'joule': (1.0, False), 'eV': (EV, False), 'kilojoule': (1e3, False)}
+                'joule': (1.0, False), 'eV': (EV, False), 'kilojoule': (1e3, False),
+                # molar / per-particle nature not visible in the spelling: only dimensional analysis can tell
+                'R*kelvin': (KB * NA, True), 'eV*N_A': (EV * NA, True), 'kJ/mol/N_A': (1e3 / NA, False)}
 MASS_UNITS = ['gram/mole', 'kilogram/mole', 'gram', 'dalton']
 
 
